@@ -81,7 +81,9 @@ func (i *interpreter) symConv(utDst, utSrc types.Type, x value) (value, bool) {
 		case db.Kind() == types.String:
 			return mkStr(i.encodeRune(x)), true
 		case db.Info()&types.IsFloat != 0:
-			unmodelled("conversion of symbolic integer to float")
+			// floats are concrete in the engine: fork on the integer's value
+			// (in practice a size or column that is determined by the path)
+			return conv(i, utDst, utSrc, i.concValue(x)), true
 		case db.Kind() == types.Bool:
 			return x, true
 		}
